@@ -304,7 +304,18 @@ impl TypeckResultsBuilder {
 
     pub fn push_coercion(&mut self, expr: hir::ExprId, coercion: Coercion) {
         if let Some(slot) = self.results.coercions.get_mut(expr.idx as usize) {
-            slot.push(coercion);
+            let Coercion::ToDyn { trait_name, ty, .. } = &coercion;
+            let already_recorded = slot.iter().any(|c| {
+                let Coercion::ToDyn {
+                    trait_name: seen_trait,
+                    ty: seen_ty,
+                    ..
+                } = c;
+                seen_trait.0 == trait_name.0 && seen_ty == ty
+            });
+            if !already_recorded {
+                slot.push(coercion);
+            }
         }
     }
 
